@@ -320,10 +320,13 @@ WHITELISTS = {'none': [], 'string': ['pub', 'meth', 'alias'], 'regex': [re.compi
               'predicate': [lambda n: n in ('pub', 'meth', 'alias', 'target')],
               # entries that also match private names: the underscore rule must hold whatever the whitelist says
               'regex-broad': [re.compile('p')], 'predicate-all': [lambda n: True], 'regex-middle': [re.compile('ub|eth|lias')],
-              'string-private': ['_priv', '_pmeth', 'pub', '__class__']}
+              'string-private': ['_priv', '_pmeth', 'pub', '__class__'],
+              # string entries are names, not patterns: these match no member of the probe
+              'string-meta': ['pu.', 'oth.*', 'met[h]', 'p|ub', '(pub)', 'target$x']}
 BLACKLISTS = {'none': [], 'string': ['other', 'meth'], 'regex': [re.compile('oth|^met')],
               # unanchored entries match anywhere in the name (re.search semantics of the documentation's examples)
               'regex-middle': [re.compile('the|et')],
+              'string-meta': ['oth.r', 'met.', '.*', 'pub|other', 'target\n'],
               'predicate': [lambda n: n.startswith('o') or n == 'pub']}
 REMAPPINGS = {'none': {}, 'name': {'alias': 'target'}, 'name+args': {'alias': ('meth', {'y': 'x'})},
               'shadow': {'pub': 'other'}}
@@ -653,6 +656,52 @@ def _policy_extras(mon, rec):
                               '%s: the child is an instance of a class yaqlized with a whitelist/blacklist that excludes %r, '
                               'yet it was reached: touches %r, outcome %r' % (text, name, touched, out),
                               {'kind': 'policy-auto', 'auto': True})
+    # one settings object (a set, a list, a tuple) shared by several yaqlize() calls: what one object's settings add
+    # (e.g. the targets of its remapping) neither reaches the others nor changes the host's own collection
+    for kind in (set, list, tuple, frozenset):
+        shared = kind(['other'])
+        before = sorted(shared)
+        p1, p2 = Probe(), Probe()
+        yaqlization.yaqlize(p1, blacklist=shared, attribute_remapping={'alias': 'target'})
+        yaqlization.yaqlize(p2, blacklist=shared)
+        for text, allowed in (('$q.target', True), ('$q.pub', True), ('$q.other', False), ("$q['target']", True)):
+            out = mon.run(text, {'q': p2})
+            touched = [n for n, s_ in LOG.attrs if s_ != 'unknown'] + [k for k, s_ in LOG.items]
+            rec.count('policy.cases')
+            rec.case(('policy-shared-settings', kind.__name__, text), nontrivial=True)
+            if allowed != bool(touched):
+                rec.violation('yaqlized-policy:settings-shared-between-objects',
+                              '%s on an object yaqlized with a blacklist %s shared with another object (which remaps alias -> target): '
+                              'touches %r, outcome %r' % (text, kind.__name__, touched, out), {'kind': 'policy-auto', 'auto': False})
+        if sorted(shared) != before:
+            rec.violation('yaqlized-policy:host-settings-object-mutated', 'the %s passed as blacklist became %r' % (kind.__name__, sorted(shared)),
+                          {'kind': 'policy-auto', 'auto': False})
+    # an object that is not subscriptable: the indexer form never turns into attribute access
+    class Plain:
+        def __init__(self):
+            object.__setattr__(self, 'pub', 'PUB')
+
+        def __getattribute__(self, name):
+            if name in INFRA:
+                LOG.infra += 1
+            else:
+                LOG.attrs.append((name, hooks.yaql_site(2)))
+            return object.__getattribute__(self, name)
+
+        def meth(self):
+            return 'METH'
+    for attrs, meths in ((False, True), (True, False), (False, False), (True, True)):
+        q = Plain()
+        yaqlization.yaqlize(q, yaqlize_attributes=attrs, yaqlize_methods=meths)
+        for text in ('$q[pub]', "$q['meth']", '$q[pub].len()'):
+            out = mon.run(text, {'q': q})
+            touched = [n for n, s_ in LOG.attrs if s_ != 'unknown' and n in ('pub', 'meth')]
+            rec.count('policy.cases')
+            rec.case(('policy-unsubscriptable', attrs, meths, text), nontrivial=True)
+            if touched or out[0] == 'value':
+                rec.violation('yaqlized-policy:indexer-reads-attribute-of-unsubscriptable-object',
+                              '%s on an object without __getitem__ (yaqlize_attributes=%s, yaqlize_methods=%s): touches %r, outcome %r' % (
+                                  text, attrs, meths, touched, out), {'kind': 'policy-auto', 'auto': False})
     # remapping with argument mapping: alias(y => 5) -> meth(x=5)
     cfg = {'attributes': True, 'methods': True, 'indexer': True, 'wl': 'none', 'bl': 'none', 'rm': 'name+args'}
     p, settings = build_probe(cfg)
